@@ -1,5 +1,129 @@
 import ZoektModel.Basic.Proto
+import ZoektModel.C17.Spec
 namespace ZoektModel.C17
-/-- stub: no model driver for C17 yet -/
-def main : IO Unit := ZoektModel.Proto.runLines (fun _ => ZoektModel.Proto.badCase "no model driver for C17")
+open ZoektModel ZoektModel.Proto
+
+/-! line protocol (repos: `id:name:tomb:ft.ft…` comma separated, `-` = none; docs: `repoIdx:name` comma separated)
+  `step <before repos> <s|u> <id> <renameOk>`            → `res=<o|e> after=<repos>`   (one SetTombstone/UnsetTombstone call;
+                                                            `before` = the metadata loaded before the call, `after` = loaded after it)
+  `hist <before repos> <ops s1+,u2!,…|->`                → `after=<repos>`             (+ = rename succeeded, ! = failed)
+  `search <repos> <docs> <indices of matching docs|->`   → `hits=<doc indices|->`
+  `list <repos> <docs> <c0|c1|rp:<repo indices>|dp:<doc indices>>` → `repos=<repo indices|->`
+-/
+
+def parseNats (sep : String) (t : String) : Option (List Nat) :=
+  if t == "-" || t == "" then some [] else (t.splitOn sep).mapM (·.toNat?)
+
+def parseRepo (t : String) : Option Repo :=
+  match t.splitOn ":" with
+  | [i, n, tb, ft] => do
+    pure ⟨← i.toNat?, ← n.toNat?, ← bool? tb, ← parseNats "." ft⟩
+  | _ => none
+
+def parseRepos (t : String) : Option (List Repo) :=
+  if t == "-" then some [] else (t.splitOn ",").mapM parseRepo
+
+def showRepo (r : Repo) : String :=
+  s!"{r.id}:{r.name}:{showBool r.tomb}:{if r.ftombs.isEmpty then "-" else ".".intercalate (r.ftombs.map toString)}"
+
+def showRepos (l : List Repo) : String := showList showRepo l
+
+def parseDocs (t : String) : Option (List Doc) :=
+  if t == "-" then some [] else
+  (t.splitOn ",").mapM fun e =>
+    match e.splitOn ":" with
+    | [a, b] => do pure ⟨← a.toNat?, ← b.toNat?⟩
+    | _ => none
+
+def parseOps (t : String) : Option (List TOp) :=
+  if t == "-" then some [] else
+  (t.splitOn ",").mapM fun e =>
+    let body := (e.drop 1).toString
+    let ok := body.endsWith "+"
+    if !(ok || body.endsWith "!") then none else
+    match e.front, (body.dropEnd 1).toString.toNat? with
+    | 's', some i => some ⟨true, i, ok⟩
+    | 'u', some i => some ⟨false, i, ok⟩
+    | _, _ => none
+
+def pick {α} (l : List α) (idx : List Nat) : List α := idx.filterMap fun i => l[i]?
+
+def indicesOf (docs hits : List Doc) : List Nat :=
+  (List.range docs.length).filter fun i => (docs[i]?).any fun d => hits.contains d
+
+def kv (pfx : String) (t : String) : Option String :=
+  if t.startsWith pfx then some (t.drop pfx.length).toString else none
+
+def handle (line : String) : String :=
+  let (inp, impl) := splitCase line
+  match fields inp with
+  | ["step", before, su, id, rok] =>
+    match parseRepos before, id.toNat?, bool? rok with
+    | some before, some id, some rok =>
+      let set := su == "s"
+      -- the state on disk is represented with the loaded metadata as the sidecar-or-base
+      let (s', ok) := setTombstone ⟨before, none, []⟩ id set rok
+      let model := s!"res={if ok then "o" else "e"} after={showRepos s'.load}"
+      match fields impl with
+      | [r, a] =>
+        match kv "res=" r, (kv "after=" a).bind parseRepos with
+        | some r, some after =>
+          match checkStep before after set id (r == "o") with
+          | some key => specFail model key
+          | none => answer model
+        | _, _ => badCase "impl step"
+      | _ => badCase "impl step fields"
+    | _, _, _ => badCase "step fields"
+  | ["hist", before, ops] =>
+    match parseRepos before, parseOps ops with
+    | some before, some ops =>
+      let s' := runOps ⟨before, none, []⟩ ops
+      let model := s!"after={showRepos s'.load}"
+      match fields impl with
+      | [a] =>
+        match (kv "after=" a).bind parseRepos with
+        | some after =>
+          if checkHist before after (ops.map fun o => (o.set, o.id, o.renameOk)) then answer model else specFail model "history-state"
+        | none => badCase "impl hist"
+      | _ => badCase "impl hist fields"
+    | _, _ => badCase "hist fields"
+  | ["search", repos, docs, mt] =>
+    match parseRepos repos, parseDocs docs, parseNats "," mt with
+    | some repos, some docs, some mt =>
+      let matching := pick docs mt
+      let hits := search repos docs (fun d => matching.contains d)
+      let model := s!"hits={showNatList (indicesOf docs hits)}"
+      match fields impl with
+      | [h] =>
+        match (kv "hits=" h).bind (parseNats ",") with
+        | some ih =>
+          if checkSearch repos matching (pick docs ih) then answer model
+          else if (pick docs ih).any (fun d => hidden repos d) then specFail model "tombstoned-document-in-results"
+          else specFail model "results-differ-from-live-matches"
+        | none => badCase "impl search"
+      | _ => badCase "impl search fields"
+    | _, _, _ => badCase "search fields"
+  | ["list", repos, docs, q] =>
+    match parseRepos repos, parseDocs docs with
+    | some repos, some docs =>
+      let q? : Option Q :=
+        if q == "c1" then some (.const true) else if q == "c0" then some (.const false)
+        else match kv "rp:" q, kv "dp:" q with
+          | some t, _ => (parseNats "," t).map fun idx => Q.repoPred fun r => idx.any fun i => repos[i]? == some r
+          | _, some t => (parseNats "," t).map fun idx => Q.docPred fun d => (pick docs idx).contains d
+          | _, _ => none
+      match q? with
+      | none => badCase "list query"
+      | some qq =>
+        let model := s!"repos={showNatList (list repos docs qq)}"
+        match fields impl with
+        | [r] =>
+          match (kv "repos=" r).bind (parseNats ",") with
+          | some listed => if checkList repos listed then answer model else specFail model "tombstoned-repository-listed"
+          | none => badCase "impl list"
+        | _ => badCase "impl list fields"
+    | _, _ => badCase "list fields"
+  | _ => badCase "op"
+
+def main : IO Unit := runLines handle
 end ZoektModel.C17
